@@ -387,7 +387,7 @@ Definition checks_pass (k : pkg) (tn : str) (cols : list column) : Prop :=
   nlen cols <= MAX_NUM_TABLE_COLUMNS /\ first_dup_or_bad cols [] = true /\ find_table (k_tabs k) tn = None /\
   rows_fit (find_table (k_tabs k) COLUMNS_TABLE_NAME) (columns_rows tn cols) = Ok true /\
   rows_fit (find_table (k_tabs k) TABLES_TABLE_NAME) [[VStr tn]] = Ok true /\
-  rows_fit (find_table (k_tabs k) VALIDATION_TABLE_NAME) (validation_rows tn cols) = Ok true.
+  vrows_fit tn (find_table (k_tabs k) VALIDATION_TABLE_NAME) (validation_rows tn cols) = Ok true.
 
 Lemma create_table_cases prof k tn cols k' r :
   pkg_create_table prof k tn cols = (k', r) ->
@@ -406,7 +406,7 @@ Proof.
   cbv zeta.
   destruct (rows_fit (find_table (k_tabs k) COLUMNS_TABLE_NAME) _) as [[|]| |] eqn:F1;
   try (destruct (rows_fit (find_table (k_tabs k) TABLES_TABLE_NAME) _) as [[|]| |] eqn:F2);
-  try (destruct (rows_fit (find_table (k_tabs k) VALIDATION_TABLE_NAME) _) as [[|]| |] eqn:F3);
+  try (destruct (vrows_fit tn (find_table (k_tabs k) VALIDATION_TABLE_NAME) _) as [[|]| |] eqn:F3);
   try early.
   intros H. right. split.
   - split; [reflexivity|]. split; [|split; [exact Ene|]].
